@@ -371,7 +371,8 @@ def family_and_call(draw):
     # callable typed per registration, instead of assembled definitions
     # (members without such a spelling stay assembled)
     family['decl'] = draw(st.sampled_from(['assembled', 'signature',
-                                           'shared-callable']))
+                                           'shared-callable',
+                                           'signature-reregistered']))
     return {'kind': 'call', 'family': family, 'call': call}
 
 
